@@ -108,6 +108,40 @@ func checkDeterminism(c *c02Case) (key, msg string, collide bool) {
 			return "C02/output-differs-between-runs:" + c.Kind, fmt.Sprintf("run 1 and run %d (GOMAXPROCS=%d) of the same input differ\n--- run 1\n%s%s\n--- run %d\n%s%s\n--- input\n%s", i+1, procs[i%len(procs)], first, firstFatal, i+1, out, fatal, c02Show(c)), collide
 		}
 	}
+	// the same Linter value used for several runs (library / editor use): every run of the same file
+	// gives the same diagnostics ("how many times the run is repeated")
+	if len(c.Targets) > 0 {
+		var pan any
+		var outs []string
+		func() {
+			defer func() { pan = recover() }()
+			l, err := al.NewLinter(&bytes.Buffer{}, &al.LinterOptions{Oneline: true, WorkingDir: w.Root, Color: al.ColorOptionKindNever})
+			if err != nil {
+				return
+			}
+			for i := 0; i < 3; i++ {
+				var b strings.Builder
+				for _, t := range c.Targets[:min(len(c.Targets), 2)] {
+					errs, err := l.LintFile(filepath.Join(w.Root, t), nil)
+					if err != nil {
+						fmt.Fprintf(&b, "fatal: %v\n", err)
+					}
+					for _, e := range errs {
+						fmt.Fprintf(&b, "%s:%d:%d:%s:%s\n", e.Filepath, e.Line, e.Column, e.Kind, e.Message)
+					}
+				}
+				outs = append(outs, b.String())
+			}
+		}()
+		if pan != nil {
+			return "C02/panic", fmt.Sprintf("panic %v (same Linter, repeated LintFile)\n%s", pan, c02Show(c)), collide
+		}
+		for i := 1; i < len(outs); i++ {
+			if outs[i] != outs[0] {
+				return "C02/output-differs-between-runs-of-one-linter:" + c.Kind, fmt.Sprintf("LintFile run 1 and run %d with the same Linter differ\n--- run 1\n%s\n--- run %d\n%s\n--- input\n%s", i+1, outs[0], i+1, outs[i], c02Show(c)), collide
+			}
+		}
+	}
 	// a sample of cases also through the built command as separate processes: exit status and stdout
 	if hx.Hash(c02Show(c))%4 == 0 {
 		if _, err := os.Stat(actionlintBin); err == nil {
